@@ -44,7 +44,11 @@ func (a *AttrConditionPlanner) Process(ctx *shared.PlannerContext) (sql.ISelect,
 		return nil, err
 	}
 
-	res := main.AndWhere(sql.Or(a.where...)).AndHaving(having)
+	res := main
+	if len(a.where) > 0 && a.impliesIndexedTerm(a.Conds) {
+		res = res.AndWhere(sql.Or(a.where...))
+	}
+	res = res.AndHaving(having)
 
 	if ctx.RandomFilter.Max != 0 && len(ctx.CachedTraceIds) > 0 {
 		rawCachedTraceIds := make([]sql.SQLObject, len(ctx.CachedTraceIds))
@@ -81,15 +85,35 @@ func (a *AttrConditionPlanner) maybeCreateWhere() error {
 		}
 		a.sqlConds = append(a.sqlConds, sqlTerm)
 
-		if !strings.HasPrefix(t.Label, "span.") &&
-			!strings.HasPrefix(t.Label, "resource.") &&
-			!strings.HasPrefix(t.Label, ".") &&
-			t.Label != "name" {
+		if !isIndexedTerm(t) {
 			continue
 		}
 		a.where = append(a.where, sqlTerm)
 	}
 	return nil
+}
+
+func isIndexedTerm(t *traceql_parser.AttrSelector) bool {
+	return strings.HasPrefix(t.Label, "span.") ||
+		strings.HasPrefix(t.Label, "resource.") ||
+		strings.HasPrefix(t.Label, ".") ||
+		t.Label == "name"
+}
+
+// impliesIndexedTerm tells if a span can only satisfy the condition through a row matching one of the
+// key/value terms. Only then the rows may be pre-filtered by those terms: a span matching
+// `duration > 1s || .a = "b"` does not need any of them.
+func (a *AttrConditionPlanner) impliesIndexedTerm(c *condition) bool {
+	if c.simpleIdx != -1 {
+		return isIndexedTerm(a.Terms[c.simpleIdx])
+	}
+	and := c.op == "&&"
+	for _, sub := range c.complex {
+		if a.impliesIndexedTerm(sub) == and {
+			return and
+		}
+	}
+	return !and
 }
 
 func (a *AttrConditionPlanner) aggregator(main sql.ISelect) error {
